@@ -281,6 +281,12 @@ func genProgram(r *rand.Rand, o *progOpts) []Call {
 				}
 				p = append(p, randDraw(r, o, vi))
 			}
+			if o.hires && r.Intn(5) == 0 {
+				// the exported resolution field changed while a path is open: it takes effect at the next StartPath only
+				c := mkCall("SetHiRes")
+				c.Sel = r.Intn(2)
+				p = append(p, c)
+			}
 			if o.selreads && r.Intn(6) == 0 {
 				p = append(p, mkCall([]string{"CSel", "NSel", "Bytes"}[r.Intn(3)]))
 			}
